@@ -423,6 +423,40 @@ class SdvrpAdapter(VariantAdapter):
             out.append(("double-depot-mid-tour", own[: k + 1] + [0] + own[k + 1:]))
         # a zero-delivery revisit of a customer that is already served
         out.append(("revisit-served-customer", g + [order[0], 0]))
+        # infeasible: the vehicle never returns although the total demand exceeds its capacity — (a) every depot
+        # return of the greedy tour replaced by a zero-delivery visit of an already served customer, (b) cyclic
+        # passes over the customers in which every zero-delivery step (vehicle exactly full) stands where a
+        # return would be needed; a checker that resets the load on any zero-delivery step accepts both
+        C, dem = inst["C"], inst["demand"]
+        if sum(dem) > C and n >= 2:
+            served, rem, swapped = [], list(dem), []
+            used = 0
+            for a in g:
+                if a == 0:
+                    used = 0
+                    if served:
+                        swapped.append(rng.choice(served))
+                    continue
+                q = min(rem[a - 1], C - used)
+                rem[a - 1] -= q; used += q
+                if rem[a - 1] == 0 and a not in served:
+                    served.append(a)
+                swapped.append(a)
+            if swapped != g:
+                out.append(("returns-replaced-by-served-customer", swapped + [0]))
+            rem, used, seq = list(dem), 0, []
+            for step in range(6 * n * max(1, -(-sum(dem) // C))):
+                if not any(rem):
+                    break
+                j = order[step % n]
+                q = min(rem[j - 1], C - used)
+                if q > 0:
+                    rem[j - 1] -= q; used += q
+                else:
+                    used = 0
+                seq.append(j)
+            if not any(rem):
+                out.append(("overfull-never-returns", seq + [0]))
         return out
 
     def special_cases(self, rng, inst, sol):
